@@ -89,7 +89,7 @@ def is_next_call(v):
 def run(rep):
     repo = rep.repo
     rep.decide('R15.a attribute protocol on next() results; R15.b pass-through / guarded body mutation; '
-               'R15.c handlers re-raise; R15.d gzip bookkeeping')
+               'R15.c handlers re-raise; R15.d gzip bookkeeping; R15.e nullable header attributes are tested before use')
     rep.decline('losslessness of gzip, equality of decoded bodies (values)')
     rep.assume('werkzeug 1.0.1 class layout as parsed from site-packages/werkzeug/wrappers')
     rep.assume('HTTPException(BaseResponse, Exception) instances flow through request middlewares (null route, raised/returned errors)')
@@ -130,6 +130,9 @@ def run(rep):
     for fi in sorted(funcs, key=lambda f: f.key):
         _guarded(rep, _one_middleware, rep, repo, fi, flow_names, resp_attrs)
     _guarded(rep, _gzip_bookkeeping, rep, repo, base)
+    rep.rule('R15.e', 'header-backed (nullable) attributes of the next() result are not dereferenced without a presence test')
+    from .c15_nullable import check_nullable_derefs
+    _guarded(rep, check_nullable_derefs, rep, 'R15.e')
     for rule, n in (('R15.a', 9), ('R15.b', 9), ('R15.c', 3), ('R15.d', 8)):
         rep.guard(rep.floor, rule, n)
 
